@@ -3,8 +3,9 @@ package main
 import (
 	"verif/internal/load"
 	"verif/internal/rep"
+	"verif/internal/roles"
 )
 
 // stubs for rules built in later steps
-func rulePurity(c *Ctx, r *rep.Report, cone string)                                          {}
 func ruleBitOrigin(r *rep.Report, p *load.Program, pkg string)                               {}
+func rulePanicSites(r *rep.Report, p *load.Program, rl *roles.Roles)                        {}
